@@ -48,6 +48,9 @@ def build(t):
         alpha = np.array([[float(F(v)) for v in r] for r in t['alpha']], dtype=float).reshape(len(t['c']), t['n'])
         if t.get('negzero'):
             alpha[alpha == 0] = -0.0
+        for i in t.get('negzero_rows', []):
+            # this row only: it then differs from an equal row in the SIGN of its zeros, nothing else
+            alpha[i][alpha[i] == 0] = -0.0
         c = np.array([float(F(v)) for v in t['c']], dtype=float)
         return cls(alpha, c)
     if k == 'dict':
@@ -370,7 +373,7 @@ def strip_types(t):
     """the model is type-agnostic: drop the numeric type annotations"""
     if not isinstance(t, dict):
         return t
-    return {k: (strip_types(v) if isinstance(v, dict) else v) for k, v in t.items() if k not in ('t', 'negzero')}
+    return {k: (strip_types(v) if isinstance(v, dict) else v) for k, v in t.items() if k not in ('t', 'negzero', 'negzero_rows')}
 
 
 # ------------------------------------------------------------------------------------------------
